@@ -777,7 +777,11 @@ def check_cfg_linearity(
             live = live_before[succ]
             for x, use_bb in live.items():
                 use_scope = scopes[use_bb]
-                place = use_scope[x]
+                # `x` is used in `use_bb` before it is reassigned there, so this use refers
+                # to the place in the input scope of `use_bb`. The block scope itself could
+                # hold a later rebinding of `x` to a value of a different type.
+                assert use_scope.parent_scope is not None
+                place = use_scope.parent_scope[x]
                 if not place.ty.copyable and (prev_use := scope.used(x)):
                     use = use_scope.used_parent[x]
                     # Special case if this is a use arising from the implicit returning
